@@ -190,6 +190,10 @@ class ImplRunner:
             if tag == 4:
                 m = env.get_action_mask()
                 return [4, [int(x) for x in m]]
+            if tag == 5:
+                st = env.generate_initial_state()      # documented: does not touch the environment
+                self.pool.append(st)
+                return [5, state_wire(st.tensor, self.lay)]
         except Inexact:
             raise
         except Exception as e:   # noqa: BLE001 -- every exception class maps to the model's RError
